@@ -33,7 +33,16 @@ for d in sorted(glob.glob(os.path.join(ROOT, "seeded", "*"))):
         else:
             first.append("%s %s" % (pid, "caught" if caught else "not triggered"))
     rows.append("| `%s` | %s | %s | %s |" % (name, summary, "; ".join(first), "; ".join(later) or "-"))
-table = "| seeded change | what it does | quick checks, first run | after strengthening |\n|---|---|---|---|\n" + "\n".join(rows)
+n_first = sum(1 for r in rows if "**missed**" not in r.split("|")[3] and "caught" in r.split("|")[3])
+n_other = sum(1 for r in rows if "**missed**" in r.split("|")[3] and "caught" in r.split("|")[3].replace("**missed**", ""))
+summary = ("%d changes kept (two rounds of 20: the second round was told what the first had done and asked for a different "
+           "mechanism). On the first run, before anything was strengthened, %d were caught by the check of their own property, "
+           "%d more were missed by it but caught by the check of another property, and the rest were missed; every miss was a gap "
+           "in the *inputs* a generator produced (no pattern with an ERROR root, no file starting with white space, no "
+           "same-length edit, no rule object with two keys, ...), never in a specification, and each was closed by widening the "
+           "generator or the bounded model, after which the change is caught (last column). One change (C04, round 2) stopped "
+           "being a breaking change when the defect it relied on was repaired.\n\n" % (len(rows), n_first, n_other))
+table = summary + "| seeded change | what it does | quick checks, first run | after strengthening |\n|---|---|---|---|\n" + "\n".join(rows)
 p = os.path.join(ROOT, "DESIGN.md")
 s = open(p).read()
 if "SEEDED_TABLE_PLACEHOLDER" in s:
